@@ -245,6 +245,8 @@ func runC01(c *Ctx) {
 	c.configMapsOwned("R01.8")
 	c.rule("R01.9", "responses are routed by ids drawn from one counter per connection: no proxy function is bound to a copy of the client object")
 	c.clientCopyRule("R01.9", true)
+	c.rule("R01.10", "a request is refused before the handler runs only for an unknown method, an unsupported channel mode or bad params — never because of its id or the spelling of its name")
+	c.rejectionReasons("R01.10")
 	c.rule("R01.6", "the context input and the error output of a signature are recognised by identity of the declared type with context.Context / error, never by Implements/AssignableTo/ConvertibleTo")
 	c.signatureClassification("R01.6")
 	if r.FnDisp == nil || r.FnCall == nil {
